@@ -289,9 +289,36 @@ func (d *Decimal) round() (int64, error) {
 		return 0, err
 	}
 
-	floatValue := float64(ud.n.Int64()) / math.Pow10(int(ud.scale))
-	roundedValue := math.Round(floatValue)
-	return int64(roundedValue), nil
+	rounded := ud.n
+	if ud.scale > 0 {
+		digits := len(new(big.Int).Abs(ud.n).String())
+		if int(ud.scale) > digits {
+			// The magnitude is below 0.1.
+			return 0, nil
+		}
+
+		// Divide by 10^scale, rounding half away from zero.
+		pow := new(big.Int).Exp(big.NewInt(10), big.NewInt(int64(ud.scale)), nil)
+		quo, rem := new(big.Int).QuoRem(ud.n, pow, new(big.Int))
+		rem.Abs(rem)
+		if rem.Lsh(rem, 1).Cmp(pow) >= 0 {
+			if ud.n.Sign() < 0 {
+				quo.Sub(quo, big.NewInt(1))
+			} else {
+				quo.Add(quo, big.NewInt(1))
+			}
+		}
+		rounded = quo
+	}
+
+	if !rounded.IsInt64() {
+		return 0, &strconv.NumError{
+			Func: "ParseInt",
+			Num:  d.String(),
+			Err:  strconv.ErrRange,
+		}
+	}
+	return rounded.Int64(), nil
 }
 
 // Truncate returns a new decimal, truncated to the given number of
